@@ -94,11 +94,7 @@ pub fn compare(ctx: &Ctx, out: &mut Out, text: &str, gtext: &str, origin: &str) 
             out.count("skipped_negative_clauses");
             return;
         }
-        if name == "recursive" && unknowns && co {
-            // F12 (C09): the recursive solver can diverge and abort on coinductive goals with unknowns
-            out.count("skipped_coinductive_unknowns");
-            return;
-        }
+        let _ = (unknowns, co); // F12 (C09) is fixed: no need to skip coinductive goals with unknowns any more
         let r = solve_fresh(text, &peeled, choice);
         out.count(&format!("{}_{}", name, answer_kind(&r)));
         match r {
